@@ -23,8 +23,8 @@ CLAIMS = {
          'B the interval reading shows no intermediate overflow for Q in [0,31], L in [-1024,1023] (found D3: i16 product, fixed) and both ranges are checked '
          'at their producers; W escape LEVEL width is 7/11 by one bit exactly under Sorenson version 1, else 8, RUN 6 bits; C IntraDc::from_u8 / into_level folded '
          'over all 256 codes; D the DQUANT code table and the update form clamp(q + dq, 1, 31); DQ that update tabulated with Rust cast / overflow semantics, casts as written, '
-         'over all 32 x 5 (quantizer, DQUANT) pairs; P the zig-zag cursor of inverse_rle (position = cursor + RUN, abandoned iff position >= 64, next = position + 1) evaluated on the SSA order of its updates for every (cursor, RUN); narrowing / sign-changing casts whose operand range does not fit are obligations like overflows; MB the DQUANT code table, TCOEF against Table 16 and the '
-         'escape forms (8-bit LEVEL, Sorenson v1 7 / 11-bit by flag, 6-bit RUN, LAST) as decision tables of decode_dquant / decode_block; C10.E no stored coefficient is dropped by the sparse-block classification; C02.D/H decode_block is told the decoder options and picture header that select the escape form and its result is dequantised with the in-force quantizer. What the coefficient does to decoded samples is C02.',
+         'over all 32 x 5 (quantizer, DQUANT) pairs; P the zig-zag cursor of inverse_rle (position = cursor + RUN, abandoned iff position >= 64, next = position + 1) evaluated on the SSA order of its updates for every (cursor, RUN); narrowing / sign-changing casts whose operand range does not fit are obligations like overflows; MB the Table 9 predicates (which types carry DQUANT), the decode_macroblock table, the DQUANT code table, TCOEF against Table 16 and the '
+         'escape forms (8-bit LEVEL, Sorenson v1 7 / 11-bit by flag, 6-bit RUN, LAST) as decision tables of decode_dquant / decode_block; C10.E no stored coefficient is dropped by the sparse-block classification; C02.Z the zig-zag table is the scan of the standard; C02.D/H decode_block is told the decoder options and picture header that select the escape form and its result is dequantised with the in-force quantizer. What the coefficient does to decoded samples is C02.',
     technique='def-use expression -> canonical-form equality against the written-out formula; interval abstract interpretation; constant folding of finite tables', ref='6/C11'),
  'C09': dict(
     text='Static, all 2^32 patterns x 12 strengths and all sizes: K1 the scalar kernel (helpers inlined, if-converted) has, for each of A,B,C,D, the same '
@@ -41,7 +41,7 @@ CLAIMS = {
          'lane-wise) and its canonical form (exact linear forms, sorted commutative operators, clamp = min/max) is compared structurally with the BT.601 '
          'studio-range formula in 16.16 fixed point, whose five coefficients the checker derives itself from Kr=0.299, Kb=0.114, 255/219, 255/224 '
          '(76309, 104597, -53279, -25675, 132201). Equality of canonical forms is equality of functions; lane l uses Y[l], Cb[l/2], Cr[l/2]; bytes R,G,B,255. '
-         'The "within 1 of the real formula", monotonicity and no-i32-overflow clauses are evaluated from the coefficients.',
+         'The "within 1 of the real formula", monotonicity and no-i32-overflow clauses are evaluated from the coefficients. Which pixel of a picture is handed which luma sample and chroma pair is C08, whose rules (K, M, R) are re-run here.',
     technique='if-conversion + canonical-form equality against a computed specification (translation validation of one kernel, no execution)', ref='6/C07'),
  'C16': dict(
     text='Static, all widths >= 1 x all heights x strengths 1..12 (the documented preconditions, taken as entry contracts): the C01 engine applied to '
@@ -76,7 +76,7 @@ CLAIMS = {
          'resynchronisation probe decode_gob / decode_picture are union transactions whose Ok(None) arm leaves the loop without consuming, only outside '
          'Sorenson mode (is_sorenson() = decoder_options.contains(SORENSON_SPARK_BITSTREAM)); T7/T4 a failed macroblock or block parse consumes nothing; CM exactly one commit(), after the loop, on every Ok path, with no '
          'reader movement between loop exit and commit; and what commit() and read_bits() do to the position (C14 E: commit = drain(0..pos/8); pos %= 8, C14 C: read = peek + skip) '
-         're-run here. PS decode_picture skips 17 + the stuffing count recognize_start_code reports; MC mb_per_line and mb_height are ceil(dim/16) for every u16 dimension (tabulated); MB / C12.C the macroblock and block layer consume exactly the bits of their syntax elements (VLC tables against Tables 7, 8, 13, 14, 16; Table 9 predicates; decision tables of decode_macroblock / decode_dquant / decode_motion_vector / decode_block). '
+         're-run here. PS decode_picture skips 17 + the stuffing count recognize_start_code reports; MC mb_per_line and mb_height are ceil(dim/16) for every u16 dimension (tabulated); EK is_eof_error is true exactly for an I/O error of kind UnexpectedEof (the only source condition that ends a picture early and succeeds; the discriminant named through the toolchain library source); MB / C12.C the macroblock and block layer consume exactly the bits of their syntax elements (VLC tables against Tables 7, 8, 13, 14, 16; Table 9 predicates; decision tables of decode_macroblock / decode_dquant / decode_motion_vector / decode_block). '
          'Hence on success the position is the end of the last macroblock and padding is never read.',
     technique='loop/dominance/control-dependence rules with structural expression matching over MIR; mod/ref effects', ref='6/C15'),
  'C04': dict(
@@ -150,7 +150,7 @@ CLAIMS = {
          'ceil(w/2.0) is tabulated exactly over the whole u16 domain and equals div_ceil(w, 2); chroma_samples_per_row = cw; G the nine accessors return exactly those '
          'fields as slices; R the plane vectors are private and the only use of &mut Vec in the module is deref_mut (a slice cannot change length); Q yuv420_to_rgba cuts chroma '
          'rows at (row/2)*CW with CW a function equal to ceil(width/2) on the whole domain, loops over len(y)/width rows, returns vec![0; 4*len(y)] (exactly width*height pixels), '
-         'empty shortcut before any division; C06.S every format that has a size has width, height >= 1; J2/S the strength table has 32 entries = Table J.2 with values 1..12 for quantizers 1..31 and Picture.quantizer is a 5-bit read. '
+         'empty shortcut before any division; C04 R1/R2/R7 after a successful call get_last_picture() returns the picture just decoded (accessor key, last_picture := its key, inserted under it, clean-up after the updates); C06.S every format that has a size has width, height >= 1; J2/S the strength table has 32 entries = Table J.2 with values 1..12 for quantizers 1..31 and Picture.quantizer is a 5-bit read. '
          'deblock() accepting every such plane: C16\'s mechanism rules, panic inventory and termination re-run here (C16.*). NOT decided: panic-freedom of the slice arithmetic inside yuv420_to_rgba (relational; see C08).',
     technique='closed-form agreement between producer and consumer (terms tabulated over the full finite domain); visibility / who-may-resize rule; const-table folding', ref='6/C13'),
  'C17': dict(
@@ -158,7 +158,7 @@ CLAIMS = {
          '(lazy_static cells: pure constant initialiser), S2 zero unsafe/extern (HIR walk), S3 interprocedural mod/ref summaries show no static is written, '
          'S4 denylist over every external call site (HashMap: keyed access only; time/env/rand/thread-id/atomics/cells/raw memory/ptr-to-int), '
          'S5 transitive field walk: per-instance types own their data; C05.T6 the byte source is consumed only through read_exact into a 1-byte buffer whose byte is always kept, so the result cannot depend on how '
-         'a Read implementation splits the same byte sequence. Positive controls on a fixture crate on every run.',
+         'a Read implementation splits the same byte sequence; C15.EK only end of data (io::ErrorKind::UnexpectedEof) ends a picture early - any other transient condition of the source fails the call. Positive controls on a fixture crate on every run.',
     technique='effect (mod/ref) analysis + denylist lint over type-checked MIR/HIR; type-fact walk', ref='6/C17'),
 }
 
